@@ -39,6 +39,15 @@ def gen_cases(ctx):
         mk("ctor", kind="new", v=rand_vec(rng, n, rng.choice(["normalised", "normalised", "generic"])), args=[])
     for L in (0, 3, 5, 6, 12):
         mk("ctor", kind="new", v=[float2bits(1.0 / math.sqrt(max(L, 1))), float2bits(0.0)] * L, args=[])
+    # norms that are off by a few units in the last place, well inside (half of) and well outside (twice) the documented tolerance
+    # EPSILON * len: what a sequence of rotations leaves behind
+    EPS = 2.0 ** -52
+    for n in (4, 5, 6, 7):
+        for dev in (0.5, -0.5, 2.0, -2.0):
+            mk("ctor", kind="new", v=sv(rng, n, "normalised", math.sqrt(1 + dev * (1 << n) * EPS))["v"], args=[])
+    for n1, n2 in ((4, 2), (2, 4), (4, 4), (5, 3), (3, 5), (6, 1)):
+        mk("tensor", a=sv(rng, n1, "normalised", math.sqrt(1 + 0.45 * (1 << n1) * EPS)), b=sv(rng, n2, "normalised", math.sqrt(1 + 0.45 * (1 << n2) * EPS)))
+        mk("tensor", a=sv(rng, n1, "normalised", math.sqrt(1 - 0.45 * (1 << n1) * EPS)), b=sv(rng, n2, "normalised", math.sqrt(1 - 0.45 * (1 << n2) * EPS)))
     # tensor products on both sides of the 64-amplitude threshold
     for n1 in range(1, 8):
         for n2 in range(1, 8):
@@ -57,6 +66,16 @@ def gen_cases(ctx):
         mk("inner", a=sv(rng, n, "generic"), b=sv(rng, n, rng.choice(["generic", "normalised"])))
         mk("normalise", a=sv(rng, n, "generic", rng.choice([1.0, 1.0, 1e-17, 1e-100, 1e100, 3.0])))
         mk("fidelity", a=sv(rng, n, "generic", rng.choice([1.0, 1e-17, 7.0])), b=sv(rng, n, "generic"))
+    # vectors on one half-line of each axis: all amplitudes real and <= 0, real and >= 0, imaginary of one sign (global phases -1, +-i of a real state)
+    for n in (1, 2, 3, 5):
+        base = [abs(bits2float(x)) for x in rand_vec(rng, n, "generic")[0::2]]
+        if n == 1: base = [0.0, 1.0]                           # -|1>
+        for ph in (-1.0, 1.0, 1j, -1j):
+            v = []
+            for x in base: z = ph * x; v += [float2bits(z.real), float2bits(z.imag)]
+            a = {"n": n, "v": v}
+            mk("normalise", a=a); mk("fidelity", a=a, b=sv(rng, n, "generic")); mk("fidelity", a=a, b={"n": n, "v": [float2bits(x) for y in base for x in (y, 0.0)]})
+            mk("metrics", a=a, b=sv(rng, n, "normalised"), c={"n": n, "v": [float2bits(x) for y in base for x in (y, 0.0)]}, z=[float2bits(-1.0), float2bits(0.0)])
     for n in (1, 2, 3, 7):
         z = {"n": n, "v": [float2bits(0.0)] * (2 << n)}
         mk("normalise", a=z); mk("fidelity", a=z, b=sv(rng, n)); mk("inner", a=sv(rng, n), b=sv(rng, n + 1))
